@@ -189,6 +189,13 @@ pub trait ReadBytesExt: Sized {
 			Ok(x) => old(self).bytes().len() >= 4 && x == be_f32(old(self).bytes(), 0) && final(self).bytes() == skip(old(self).bytes(), 4),
 			Err(_) => old(self).bytes().len() < 4,
 		};
+	// std::io::Read::read_exact on a slice
+	fn read_exact(&mut self, buf: &mut [u8]) -> (r: std::result::Result<(), IoError>)
+		ensures final(buf)@.len() == old(buf)@.len(),
+			match r {
+				Ok(_) => old(self).bytes().len() >= old(buf)@.len() && final(buf)@ == old(self).bytes().subrange(0, old(buf)@.len() as int) && final(self).bytes() == skip(old(self).bytes(), old(buf)@.len() as int),
+				Err(_) => old(self).bytes().len() < old(buf)@.len(),
+			};
 }
 
 impl<'a> ReadBytesExt for &'a [u8] {
@@ -200,6 +207,7 @@ impl<'a> ReadBytesExt for &'a [u8] {
 	#[verifier::external_body] fn read_u32<B>(&mut self) -> (r: std::result::Result<u32, IoError>) { unimplemented!() }
 	#[verifier::external_body] fn read_i32<B>(&mut self) -> (r: std::result::Result<i32, IoError>) { unimplemented!() }
 	#[verifier::external_body] fn read_f32<B>(&mut self) -> (r: std::result::Result<f32, IoError>) { unimplemented!() }
+	#[verifier::external_body] fn read_exact(&mut self, buf: &mut [u8]) -> (r: std::result::Result<(), IoError>) { unimplemented!() }
 }
 
 // arrow2::array::MutablePrimitiveArray<T>: abstract view = Seq<Option<T>> (None = null slot)
